@@ -165,6 +165,33 @@ pub fn query_all2<T: Elem>(
     }
 }
 
+/// Build (and drop) a *different* problem that looks the same from afar right before the real
+/// one: same data, boundary, length, end knots and (for dyadic axes exactly) the same sum of
+/// knots, but two interior knots moved towards each other. Whatever the crate remembers
+/// between builds must not leak into the next interpolator.
+pub fn decoy_build1<T: Elem>(rng: &mut Rng, spec: &Spec1<T>) -> bool {
+    let Some(x) = &spec.x else { return false };
+    let n = x.len();
+    if n < 4 {
+        return false;
+    }
+    let mut v: Vec<T> = x.to_vec();
+    let i = 1 + rng.below(n - 3);
+    let j = i + 1 + rng.below(n - 2 - i);
+    let d1 = (v[i + 1] - v[i]) / T::of(4.0);
+    let d2 = (v[j] - v[j - 1]) / T::of(4.0);
+    let d = if d1 < d2 { d1 } else { d2 };
+    v[i] = v[i] + d;
+    v[j] = v[j] - d;
+    if !v.windows(2).all(|w| w[0] < w[1]) {
+        return false;
+    }
+    let mut decoy = spec.clone();
+    decoy.x = Some(vh_core::ndarray::Array1::from(v));
+    build1(&decoy, |_| ());
+    true
+}
+
 pub fn count_labels(ev: &mut Ev, lab: &Labels, elem: &str, dim: &str) {
     ev.count("axis_class", &lab.axis);
     ev.count("data_class", &lab.data);
@@ -238,6 +265,10 @@ pub fn spline_case<T: Elem>(
     ev.count("uniform", if lab.uniform { "uniform" } else { "non-uniform" });
     ev.count("extrapolate", if o.extrapolate { "on" } else { "off" });
 
+    // every fifth case is preceded by the build of a look-alike problem
+    if case % 5 == 1 && decoy_build1(&mut rng, &spec) {
+        ev.add("decoy_builds", 1);
+    }
     build1(&spec, |r| {
         let interp = match r {
             Ok(i) => i,
